@@ -20,6 +20,7 @@ LOGS = {
     "split": [("iauth.*", "file:iauth.log"), ("*.>=warning", "file:warn.log"), ("core.<=info", "file:core.log")],
 }
 PORTS = [0, 1, 1023, 6667, 32768, 65535]
+_BAR = __import__("re").compile(rb"S iauth :\d+-\d+ reqs alloc, \d+ in use")
 
 
 def gen_addresses(ctx, nc5_from, nc5_count, nc5_step, v4nc):
@@ -65,7 +66,15 @@ def client_history(cid, addr_text, port, variant):
           {"e": "P", "id": cid, "shape": "ok", "modes": ["+", "x"], "cred": ["p%x" % cid, 12], "raw": ["P%x" % cid, 0]}]
     rep = lambda svc, kind: {"e": "X", "svc": svc, "tag": "@cur", "kind": kind, "acct": ["ac%x" % cid, 9],
                              "text": ["spt%x" % cid, 30], "trail": ""}
-    if variant % 4 == 0:
+    if variant % 9 == 8:
+        # over-long texts: the relayed challenge line ends exactly at / just below / above the formatter's 1024-byte buffer,
+        # and far beyond it; whatever the daemon does with the text, what it writes must still be single well-formed lines
+        head = len("C %d %s %d :" % (cid, addr_text, port))
+        total = (1021, 1022, 1023, 1024, 1025, 1100, 2100)[(variant // 9) % 7]
+        long_rep = dict(rep("a1.svc", "MORE"), text=["spl%x" % cid, max(20, total - head)])
+        ev += [long_rep, dict(ev[5]), dict(rep("a1.svc", "AGAIN"), text=["spm%x" % cid, max(20, total - head + 1)]),
+               rep("b2.svc", "OK"), rep("c3.svc", "OK")]
+    elif variant % 4 == 0:
         ev += [rep("a1.svc", "AGAIN"), rep("b2.svc", "OKA"), rep("c3.svc", "NO")]
     elif variant % 4 == 1:
         ev += [rep("a1.svc", "MORE"), dict(ev[5]), rep("a1.svc", "OKA"), rep("b2.svc", "OK"), rep("c3.svc", "OK")]
@@ -134,10 +143,15 @@ def _worker(args):
                             wds = ln.split(b" ")
                             if len(wds) > 2 and wds[2].startswith(b"%x_" % e["id"]):
                                 cur = wds[2].decode()
-                    # the barrier's own statistics block is judged on every 40th step only (it differs in numbers only)
-                    if "raw" in rec and nsteps % 40:
-                        last = max([k for k, ln in enumerate(d.last_raw) if ln.startswith(b"S iauth :")] or [len(d.last_raw)])
-                        rec["raw"] = rec["raw"][:last]
+                    # the step's own lines / the barrier's statistics block (starts at the last "S iauth :<n>-<m> reqs alloc"
+                    # line).  The block's lines are judged for form on every 40th step only (they differ in numbers only), but
+                    # its first and last line are always handed to TLC: a message that lost its newline swallows the next line.
+                    if "raw" in rec:
+                        blk = [k for k, ln in enumerate(d.last_raw) if _BAR.match(ln)]
+                        cut = blk[-1] if blk else len(d.last_raw)
+                        rec["bar"] = [list(d.last_raw[cut]), list(d.last_raw[-1])] if blk else []
+                        if nsteps % 40:
+                            rec["raw"] = rec["raw"][:cut]
                     w(rec, key)
                     if rec["e"] == "Crash":
                         ncrash += 1
